@@ -1,8 +1,9 @@
 #!/usr/bin/env python3
 # usage: tools/keepseed.py <Cxx> <slug> "<result of /verif checks>"  — copies /tmp/seedout/<Cxx> to seeded/<Cxx>-<slug>
 import sys, json, shutil, os
-pid, slug, res = sys.argv[1:4]
-src = f'/tmp/seedout/{pid}'; dst = f'/verif/seeded/{pid}-{slug}'
+srcid, slug, res = sys.argv[1:4]
+pid = srcid[:3]  # second-round seeds come from /tmp/seedout/Cxxb
+src = f'/tmp/seedout/{srcid}'; dst = f'/verif/seeded/{pid}-{slug}'
 os.makedirs(dst, exist_ok=True)
 shutil.copy(f'{src}/patch.diff', dst)
 if os.path.isdir(f'{dst}/demo'): shutil.rmtree(f'{dst}/demo')
